@@ -194,6 +194,8 @@ def create_calls():
         "primary_key": lambda q, Q: q.primary_key("id"),
         "if_not_exists": lambda q, Q: q.if_not_exists(),
         "temporary": lambda q, Q: q.temporary(),
+        "unlogged": lambda q, Q: q.unlogged(),
+        "system_versioning": lambda q, Q: q.with_system_versioning(),
         "period_for": lambda q, Q: q.period_for("p", "id", "a"),
         "as_select": lambda q, Q: q.as_select(Q.from_(u).select(u.id)),
     }
@@ -290,6 +292,11 @@ def cases(tier, seed, shard, nshards):
                 if not any(var.values()):
                     continue
                 yield {"k": "perm", "kind": kind, "d": d, "calls": calls, "var": var}
+    for stmt in SHORTCUT_STATEMENTS:
+        for maker in ("Table", "Tables-name", "Tables-pair", "Tables-mixed"):
+            k += 1
+            if k % nshards == shard:
+                yield {"k": "shortcut", "stmt": stmt, "maker": maker}
     # accumulation in call order
     for d in DIALECT_CLASSES:
         k += 1
@@ -483,6 +490,15 @@ def wellformed(kind, d, calls, sql, mon):
     if why:
         mon.violation("%s:clause-order:%s:%s" % (kind, why.split(" (")[0].replace(" ", "-"), fam), "%s: %r (calls %s)" % (why, sql[:260], calls))
         return True
+    if kind == "create":
+        # CREATE [TEMPORARY | UNLOGGED] TABLE [IF NOT EXISTS] name: at most one table-kind keyword
+        words = [tk.value for tk in toks if tk.kind == "WORD"]
+        if "TABLE" in words:
+            between = words[words.index("CREATE") + 1:words.index("TABLE")] if "CREATE" in words else ["?"]
+            mon.count("create_headers_checked")
+            if between not in ([], ["TEMPORARY"], ["UNLOGGED"]):
+                mon.violation("create:header:%s" % "-".join(between).lower(), "CREATE %s TABLE is not a table-kind the grammar knows: %r (calls %s)" % (" ".join(between), sql[:200], calls))
+                return True
     if kind == "insert":
         # the conflict target is a list of bare column names
         for i, tk in enumerate(toks):
@@ -520,7 +536,7 @@ def wellformed(kind, d, calls, sql, mon):
                     elif depth == 0 and tj.kind == "PUNCT" and tj.text == ",":
                         start = True
                     j += 1
-    if d == "SQLLiteQuery" and (kind != "select" or set(calls) <= SQLITE_OK) and "period_for" not in calls and "temporary" not in calls[:0]:
+    if d == "SQLLiteQuery" and (kind != "select" or set(calls) <= SQLITE_OK) and not ({"period_for", "unlogged", "system_versioning"} & set(calls)):  # (features SQLite does not have)
         try:
             sqlite_prepare(sql)
             mon.count("sqlite_prepares")
@@ -688,8 +704,49 @@ def run_accumulate(case, mon):
     mon.nontrivial(["accumulate", d])
 
 
+SHORTCUT_STATEMENTS = {
+    "offset-only": lambda t, u: t.select(t.a).offset(2),
+    "union": lambda t, u: t.select(t.a).union(u.select(u.a)).orderby(t.a).limit(3),
+    "union-offset-only": lambda t, u: t.select(t.a).union_all(u.select(u.a)).offset(1),
+    "update-join": lambda t, u: t.update().join(u).on(t.id == u.id).set(t.a, u.b).where(u.c == "x"),
+    "update-from": lambda t, u: t.update().from_(u).set(t.a, u.b).where(t.id == u.id),
+    "boolean": lambda t, u: t.select(t.a, True).where(t.b == False),  # noqa: E712
+    "insert-upsert": lambda t, u: t.insert(1, 2, 3, "x").on_conflict("id").do_update("a"),
+    "select-subquery": lambda t, u: t.select(t.a).where(t.id.isin(u.select(u.id).offset(1))),
+}
+
+
+def run_shortcut(case, mon):
+    """SQLite statements started from tables of the dialect's own factories and their shortcuts: accepted by SQLite's parser."""
+    r = R()
+    Q = r["SQLLiteQuery"]
+    makers = {"Table": lambda n, a: Q.Table(n), "Tables-name": lambda n, a: Q.Tables(n)[0], "Tables-pair": lambda n, a: Q.Tables((n, a))[0],
+              "Tables-mixed": lambda n, a: Q.Tables("zz", (n, a))[1]}
+    mk = makers[case["maker"]]
+    if case["stmt"] in ("update-join", "update-from", "insert-upsert") and case["maker"].startswith("Tables-") and case["maker"] != "Tables-name":
+        return  # (an aliased UPDATE/INSERT target is outside what SQLite's grammar and this property cover)
+    t, u = mk("t", "ta"), mk("u", "ua")
+    try:
+        q = SHORTCUT_STATEMENTS[case["stmt"]](t, u)
+        sql = str(q)
+    except Exception as e:
+        mon.violation("shortcut:raises:%s:%s" % (type(e).__name__, case["stmt"]), "%s via %s raised %r" % (case["stmt"], case["maker"], e))
+        return
+    mon.count("shortcut_statements")
+    try:
+        sqlite_prepare(sql)
+        mon.count("sqlite_prepares")
+    except sqlite3.Error as e:
+        msg = str(e)
+        if "syntax error" in msg or "unrecognized token" in msg or "incomplete input" in msg:
+            mon.violation("shortcut:engine-rejects:%s:%s" % (case["stmt"], case["maker"]), "SQLite rejects %r (started from %s(..) and the table's shortcut): %s" % (sql[:260], case["maker"], e))
+            return
+        mon.count("sqlite_semantic_errors_not_judged")
+    mon.nontrivial(["shortcut", case["stmt"], case["maker"]])
+
+
 def run_case(case, mon):
-    {"subset": run_subset, "perm": run_perm, "accumulate": run_accumulate}[case["k"]](case, mon)
+    {"subset": run_subset, "perm": run_perm, "accumulate": run_accumulate, "shortcut": run_shortcut}[case["k"]](case, mon)
 
 
 def coverage_extra(m, tier):
